@@ -310,6 +310,14 @@ def reference(hist):
                 out.append(f"late ok=1 pipes={m} exit=- completed=0 | joined=0 killed=1 eof=1 after=0")
             else:
                 out.append("bad-op")
+        elif t[0] == "eofjoin":
+            # join()/the destructor end the child's input themselves; the child then writes and exits: join returns its code
+            m, code = (int(t[2]) & 3) | 4, int(t[4])
+            seen = "in=-" if m & 1 else "in=3:352441c2"          # the child's report is on the (never read) stdout pipe otherwise
+            if t[1] == "join":
+                out.append(f"ej ok=1 pipes={m} exit={code} | written=3 joined=1 {seen} after=0")
+            else:
+                out.append(f"ej ok=1 pipes={m} exit=- | written=3 joined=0 {seen} after=0")
         elif t[0] == "sig":
             # observation: join() stores WEXITSTATUS also for a child terminated by a signal, i.e. 0
             out.append(f"sig ok=1 pipes={int(t[1]) & 7} | joined=1 exit=0 after=0")
@@ -493,6 +501,8 @@ def late_histories(rng, quick):
     if not quick:
         for m in range(8):
             hs.append([f"late join {m} {d} {c}" for d, c in ((0, 0), (20, 5), (400, 77))] + ["fds"])
+    for m in range(4):
+        hs.append([f"eofjoin {order} {m} {n} {codes[(m + n) % len(codes)]}" for order in ("join", "dtor") for n in ((0, 1, 40) if quick else (0, 1, 40, 4096, 60000))] + ["fds"])
     hs.append([f"sig {m} {sg}" for m in (0, 1, 7) for sg in (9, 15, 2, 10)] + ["fds"])
     hs.append([f"killbusy {m}" for m in (0, 1, 2, 3, 7)] + ["fds"])
     return hs
@@ -538,7 +548,7 @@ def nontrivial(h, out):
             _hit("proc:call-refused" if o.startswith("p ok=0") else "proc:call-ok")
         if o.startswith(("p ", "e ")) and len(h) >= 3:
             keys.add((tuple(h), o))
-        elif o.count(":") >= 2 or (o.startswith("s ") and not o.startswith("s 0") and not o.startswith("s 1 ")) or o.startswith(("x ", "io ", "exit ", "late ", "sig ", "kb ")):
+        elif o.count(":") >= 2 or (o.startswith("s ") and not o.startswith("s 0") and not o.startswith("s 1 ")) or o.startswith(("x ", "io ", "exit ", "late ", "sig ", "kb ", "ej ")):
             keys.add(o.split(" | ")[0] if o.startswith("x ") else o)
     return frozenset(keys) if keys else None
 
@@ -585,7 +595,7 @@ def histories_for(ctx):
         f"({len(es)}){'' if quick else f' and <= 6 symbols over a, b, blank, quote, backslash ({len(es2)})'} + {len(rs)} random lines, 20 s watchdog; "
         f"run: {len(rl)} launches of the helper child through every start/open form x redirection mask x environment (empty=inherit, 1..3 variables) "
         f"with argv/environment echoed back; io: redirection masks 0..7 x payload sizes {SIZES} ({len(il)} runs, stdin payload written and "
-        f"stdout/stderr read to end-of-file, CRC-32 compared); exit: {len(xl)} exit codes through start(command)+join; Process object: every sequence of <= {3 if quick else 4} calls over {len(POPS)} calls (start, open with masks 0/1/7, join, kill, close, isRunning, read with stream selection, destructor, open with a failing vfork) + random sequences ({len(ph)} histories; pid/descriptor bookkeeping, results, EINVAL; every history ends with a count of leaked descriptors), join/destructor/close+join/kill while the child is still going to write to its redirected streams ({len(lh)} histories: all masks, the child waits, writes one line per redirected output stream, leaves a marker file and exits with a non-zero code; join must return that code whether or not the parent has read anything), children terminated by signals, a child writing without end is killed; a child blocked on its stdin is killed (4 masks); the descriptor tables of parent and child after open() read through /proc and compared with the descriptor-table model (8 masks); an executable that cannot be started (missing file, empty and blank command line) x masks 0..7: launch succeeds, exit code EXIT_FAILURE, `<program>: No such file or directory` on the redirected stderr; environment: {len(eh)} random histories of setEnvironmentVariable/getEnvironmentVariable/getEnvironmentVariables mixed with launches that inherit the environment. "
+        f"stdout/stderr read to end-of-file, CRC-32 compared); exit: {len(xl)} exit codes through start(command)+join; Process object: every sequence of <= {3 if quick else 4} calls over {len(POPS)} calls (start, open with masks 0/1/7, join, kill, close, isRunning, read with stream selection, destructor, open with a failing vfork) + random sequences ({len(ph)} histories; pid/descriptor bookkeeping, results, EINVAL; every history ends with a count of leaked descriptors), join/destructor/close+join/kill while the child is still going to write to its redirected streams ({len(lh)} histories: all masks, the child waits, writes one line per redirected output stream, leaves a marker file and exits with a non-zero code; join must return that code whether or not the parent has read anything), join/destructor with a child that first reads its redirected stdin to the end (the parent neither closes stdin nor reads: join itself must end the input; 4 masks x sizes), children terminated by signals, a child writing without end is killed; a child blocked on its stdin is killed (4 masks); the descriptor tables of parent and child after open() read through /proc and compared with the descriptor-table model (8 masks); an executable that cannot be started (missing file, empty and blank command line) x masks 0..7: launch succeeds, exit code EXIT_FAILURE, `<program>: No such file or directory` on the redirected stderr; environment: {len(eh)} random histories of setEnvironmentVariable/getEnvironmentVariable/getEnvironmentVariables mixed with launches that inherit the environment. "
         "distinct_nontrivial = distinct observation lines with >= 2 results / >= 2 words / a child run")
     ctx.cov["open_statements"] = [
         "run-time delivery (the child observes argv/environ as given, join returns its exit code, redirected bytes arrive intact up to "
